@@ -976,6 +976,11 @@ class ExprAssign(Expr):
             new_src = ExprCompose(*args)
         else:
             new_dst, new_src = dst, src
+        if new_dst.is_slice():
+            # Slice of a slice: unfold again, so that the stored destination
+            # is never a slice and ExprAssign(e.dst, e.src) is e itself
+            # (pickle, copy and repr/parse rebuild it this way)
+            return cls(new_dst, new_src)
         expr = Expr.get_object(cls, (new_dst, new_src))
         expr._dst, expr._src = new_dst, new_src
         return expr
